@@ -460,3 +460,4 @@ PROP = Prop(
           Sub('vector', body_vec, strategy=case_vec, quick=250, thorough=4000),
           Sub('lists', body_lists, strategy=case_lists, quick=400, thorough=8000)],
     design_ref='DESIGN.md section 6, C19')
+PROP.rule += ('. Added in round 2: BilinearForm(form).block(b, a) assembled on the component bases == the component form.')
